@@ -2417,7 +2417,8 @@ impl SubRule {
                     pos.increment(word);
                     Ok(true)
                 } else { Ok(false) },
-                ParseElement::Syllable(stress, tone, var) => self.input_match_syll(captures, state_index, stress, tone, var, word, pos),
+                // NOTE: the caller advances state_index for the set as a whole
+                ParseElement::Syllable(stress, tone, var) => self.input_match_syll(captures, &mut state_index.clone(), stress, tone, var, word, pos),
                 ParseElement::SyllBound => if pos.at_syll_start() {
                     captures.push(MatchElement::SyllBound(pos.syll_index, Some(i))); // FIXME: `i` is being unnecessarily reassigned
                     Ok(true)
